@@ -858,7 +858,7 @@ def _cmp_nested(a, b, tol):
 
 # --------------------------------------------------------------------------
 def run(ctx):
-    ctx.build(FILES)
+    ctx.build_with_translator(FILES)
     quick = ctx.tier == 'quick'
     ctx.cov['rule'] = (
         'K: random images 1..12 x 1..12 on the quarter-integer lattice (float64 -> bottleneck dispatch, float32 -> '
